@@ -242,6 +242,20 @@ def ann_random(rng, n):
                     d = rng.choice([0, 1, 999, 1000, iv * 1000 - 1, iv * 1000, iv * 1000 + 1, wd * 1000, 119000, 120000, 121000, 179000, 180000, 181000])
                 now += d
                 lines.append("adv ms=%d" % d)
+                if rng.random() < 0.35:
+                    lines.append("tick")      # the daemon ticks between announces (cleanup passes must not refill a peer's budget)
+        out.append(lines)
+    # long quiet gaps inside wide burst windows, with ticks in the gap
+    for _ in range(max(20, n // 10)):
+        burst = rng.choice([2, 3, 4])
+        window = rng.choice([600, 1800, 3600])
+        interval = rng.choice([1, 15])
+        lines = ["reset mode=ann interval=%d window=%d burst=%d powdiff=0 npeers=2" % (interval, window, burst)]
+        for i in range(burst + 1):
+            lines.append(ann_cmd(rng, 1, "ok", 3))
+            lines.append("adv ms=%d" % ((interval + 1) * 1000))
+        gap = rng.choice([121, 130, 200, window // 2])
+        lines += ["adv ms=%d" % (gap * 1000), "tick", "adv ms=1000", "tick", ann_cmd(rng, 1, "ok", 3), ann_cmd(rng, 2, "ok", 3)]
         out.append(lines)
     return out
 
